@@ -30,7 +30,7 @@ func runC01(c *core.Ctx) {
 	ruleNameEscape(c, "C01-R2", "pdf")
 	ruleStringEscapes(c, "C01-R3", "pdf")
 	ruleHexString(c, "C01-R4", "pdf")
-	ruleSeparators(c)
+	ruleSeparators(c, "C01-R5")
 	ruleRealDot(c)
 	ruleFormatDeterminism(c)
 	ruleRefLimits(c, "C01-R8")
@@ -214,8 +214,7 @@ func constBytes(info *types.Info, e ast.Expr) (string, bool) {
 }
 
 // ruleSeparators checks each case of doFormat's type switch.
-func ruleSeparators(c *core.Ctx) {
-	const rule = "C01-R5"
+func ruleSeparators(c *core.Ctx, rule string) {
 	c.Floor(rule, 12)
 	reg := specRegular()
 	fn := c.Prog.Func("pdf", "doFormat")
